@@ -145,7 +145,7 @@ func (w *Worker) lookupStub(fn *ssa.Function) *ssa.Function {
 
 var denyPrefixes = []string{
 	"os", "syscall", "runtime", "reflect", "internal/reflectlite", "sync", "encoding/json", "fmt", "regexp",
-	"crypto", "net", "unsafe", "math/big", "log", "encoding/asn1", "encoding/pem", "hash", "mime",
+	"crypto", "net", "unsafe", "math/big", "log", "encoding/asn1", "encoding/pem", "hash",
 	"internal/poll", "internal/bytealg", "internal/cpu", "internal/abi", "internal/godebug", "internal/syscall", "internal/testlog",
 	"github.com/fxamacker", "github.com/veraison", "github.com/golang-jwt", "golang.org/x/crypto", "golang.org/x/sync",
 	"oras.land/oras-go/v2/content/oci", "oras.land/oras-go/v2/registry/remote", "oras.land/oras-go/v2/internal",
